@@ -33,4 +33,8 @@ def handle : List Sx → Sx
         Sx.ok (.list [encRes (call s as kw), encRes (SpecMacro.bind s as kw)])
     | _, _, _, _, _, _ => Sx.bad
   | _ => Sx.bad
+/-- request names served by this module (collected into `JinjaV.Wire.All` by tools/gen_wire_all.py) -/
+def handlers : List (String × (List Sx → Sx)) :=
+  [("macro", handle)]
+
 end JinjaV.Wire.Macro
